@@ -292,7 +292,7 @@ def run(chk):
             lines.append('cifval\t%s %s %d %d %d' % (kind, p_, c, rng.randint(0, 10 ** 6), v))
         # every column (or pair) removed in turn: the "optional tag absent" paths of the conversions
         for c in range(ncol):
-            for kind in (['refln'] if is_sf else ['st_cif']) + ([rng.choice(kinds)] if not quick or rng.random() < 0.2 else []):
+            for kind in (['refln'] if is_sf else ['st_cif', 'small']) + ([rng.choice(kinds)] if not quick or rng.random() < 0.2 else []):
                 lines.append('cifdrop\t%s %s %d' % (kind, p_, c))
     rng.shuffle(lines)
     res = vlib.correspond(chk, h, None, lines, timeout=3000,
